@@ -584,6 +584,14 @@ def check_callback_index(ctx, fb, rule):
     through the earlier input's callback: its value lands in the wrong slot, its own slot stays empty."""
     import re
     n = 0
+    # storage whose elements all carry index 0 is the unordered one (one node per core type / per shared input),
+    # whatever member it lives in: the callbacks of an ordered strategy carry their input's number
+    carries = {}
+    for f in fb.fn.values():
+        if f.n == 'GetCallbackHelper' and f.clsq == 'yaclib::when::StaticCombinator' and f.cfg is not None and f.fta:
+            m = re.search(r',\s*(\d+)>\s*&?\s*$', f.ret)
+            if m is not None and m.group(1) != '0':
+                carries[f.cls] = True
     for f in fb.fn.values():
         if f.n != 'GetCallbackHelper' or f.clsq != 'yaclib::when::StaticCombinator' or f.cfg is None or not f.fta:
             continue
@@ -591,7 +599,8 @@ def check_callback_index(ctx, fb, rule):
         if len(gets) != 1:
             ctx.broken('R-INDEX: GetCallbackHelper of %s: %d std::get calls' % (f.cls[:80], len(gets)))
         op = f.sn(gets[0]['args'][0])
-        ordered = op is not None and op['k'] == 'MemberExpr' and op.get('mn') == 'callbacks'
+        ordered = op is not None and op['k'] == 'MemberExpr' and op.get('mn') == 'callbacks' and \
+            (carries.get(f.cls) or f.fta[0] == '0')
         if not ordered:
             continue
         key = 'R-INDEX StaticCombinator::GetCallbackHelper (ordered)'
@@ -604,4 +613,97 @@ def check_callback_index(ctx, fb, rule):
             ctx.report(rule, key, f.where, 'input number %s registers the callback that carries index %s: its value / '
                        'Result is stored in slot %s and its own slot stays empty' % (f.fta[0], m.group(1), m.group(1)),
                        'instantiation: ' + f.full[:300])
+    return n
+
+
+# ---------------------------------------------------------------------------------------------------------------------
+# R-ONENODE: a callback node is registered on at most one shared input
+def check_one_node(ctx, fb, rule):
+    """A SharedCore links its subscribers through InlineCore::next: one callback node can sit on one shared core's list
+    only.  (a) StaticCombinator::GetCallbackHelper<Index, Core>: within one combinator instantiation two different
+    shared inputs never get the same element of the callback storage; (b) SingleCombinator — which registers ITSELF
+    on every input — is instantiated over a shared core type only for a single input, and never through the
+    iterator form (run-time count)."""
+    import re
+    n = 0
+    groups = {}
+    for f in fb.fn.values():
+        if f.n != 'GetCallbackHelper' or f.clsq != 'yaclib::when::StaticCombinator' or f.cfg is None or len(f.fta or []) < 2:
+            continue
+        gets = [c for c in f.own_nodes() if c.get('cn') == 'std::get' and c.get('args')]
+        if len(gets) != 1:
+            ctx.broken('R-ONENODE: GetCallbackHelper of %s: %d std::get calls' % (f.cls[:80], len(gets)))
+        ident = (f.text(gets[0]['args'][0]), (gets[0].get('cta') or ['?'])[0])
+        groups.setdefault(f.cls, {}).setdefault(ident, {})[f.fta[0]] = (f, 'SharedCore<' in f.fta[1])
+    for cls, idents in sorted(groups.items()):
+        key = 'R-ONENODE StaticCombinator callbacks'
+        n += 1
+        ctx.instance(rule, key + ' :: ' + cls[:140], dict(slots=len(idents)))
+        for ident, users in sorted(idents.items()):
+            shared = sorted(i for i, (f, sh) in users.items() if sh)
+            if shared and len(users) > 1:
+                f = users[shared[0]][0]
+                ctx.report(rule, key, f.where, 'inputs number %s register the same callback node (%s element %s) and %s '
+                           'shared: the second push onto a shared core\'s subscriber list overwrites the node\'s next '
+                           'link, so subscribers of the other input are cut off from their list or spliced into a foreign '
+                           'one' % (', '.join(sorted(users)), ident[0], ident[1],
+                                    'both are' if len(shared) > 1 else 'one is'), 'combinator: ' + cls[:300])
+                break
+    for f in fb.fn.values():
+        if f.n != 'Set' or f.clsq != 'yaclib::when::SingleCombinator' or f.cfg is None:
+            continue
+        core = (f.cta or ['', ''])[1] if len(f.cta or []) > 1 else ''
+        key = 'R-ONENODE SingleCombinator::Set'
+        n += 1
+        static_inputs = [p for p in f.params if 'Core<' in f.locals[p]['t']]
+        iterator_form = not static_inputs
+        ctx.instance(rule, key + ' :: ' + f.full[:140], dict(core=core[:80], inputs='run-time' if iterator_form else
+                                                              len(static_inputs)))
+        if 'SharedCore<' in core and (iterator_form or len(static_inputs) > 1):
+            ctx.report(rule, key, f.where, 'the single-node combinator registers itself on %s shared inputs: one node '
+                       'cannot sit on several shared cores\' subscriber lists' % (
+                           'a run-time number of' if iterator_form else len(static_inputs)),
+                       'instantiation: ' + f.full[:300])
+    return n
+
+
+# ---------------------------------------------------------------------------------------------------------------------
+# R-HANDOFF: a combinator is not touched after its last input has been registered
+def check_handoff_loops(ctx, fb, rule):
+    """A combinator is created with one reference per input and none for the thread that runs Set(): once the last
+    input has been registered (SetCallback) another thread can complete every input and delete the combinator.  In a
+    registration loop the object may therefore be touched only inside the body, while an input is still unregistered:
+    the loop condition, the increment and everything after the loop must work on locals."""
+    n = 0
+    for f in sorted(fb.fn.values(), key=lambda f: f.full):
+        if f.n != 'Set' or not f.clsq.startswith('yaclib::when::') or f.cfg is None:
+            continue
+        for loop in [x for x in f.own_nodes() if x['k'] in ('ForStmt', 'WhileStmt', 'DoStmt')]:
+            body = loop.get('body')
+            if body is None:
+                continue
+            inside = set(f.descendants(loop['i']))
+            if not any(f.nodes[d].get('cn', '').split('::')[-1] == 'SetCallback' for d in f.descendants(body)):
+                continue
+            key = 'R-HANDOFF %s::Set registration loop' % f.clsq
+            n += 1
+            ctx.instance(rule, key + ' :: ' + f.full[:120], None)
+            bodyset = set(f.descendants(body)) | {body}
+            ctl = [d for d in inside if d not in bodyset and f.nodes[d]['k'] == 'CXXThisExpr']
+            # the init statement runs before the first registration
+            init = loop['ch'][0] if loop['k'] == 'ForStmt' and loop.get('ch') and loop['ch'][0] is not None and \
+                loop['ch'][0] >= 0 else None
+            if init is not None:
+                initset = set(f.descendants(init)) | {init}
+                ctl = [d for d in ctl if d not in initset]
+            after = [x['i'] for x in f.own_nodes() if x['k'] == 'CXXThisExpr' and x['i'] > loop['i']]
+            if ctl:
+                ctx.report(rule, key, f.loc(f.nodes[ctl[0]]), 'the loop condition / increment reads a member of the '
+                           'combinator: after the last input was registered the combinator may already have been '
+                           'deleted by the thread that completed it (use after free, unordered with the delete)',
+                           'instantiation: ' + f.full[:300])
+            elif after:
+                ctx.report(rule, key, f.loc(f.nodes[after[0]]), 'the combinator is touched after the registration loop: '
+                           'it may already have been deleted by the thread that completed the last input',
+                           'instantiation: ' + f.full[:300])
     return n
